@@ -423,6 +423,9 @@ func (g *Gen) genDiff(t *tape.Tape, pre *refstate.State, d *core.StateDiff, clas
 				v := *d.StorageDiffs[src][k]
 				m[k] = &v
 			}
+			if len(m) == 0 {
+				delete(d.StorageDiffs, dst) // neither has any storage: no entry without slots
+			}
 		case 5: // system contract storage
 			a := f(uint64(1 + t.Draw("sys.addr", 2)))
 			g.slotWrite(t, pre, d, a, true)
